@@ -96,10 +96,14 @@ theorem finishStep_plain_next (ops : ValOps V) (r : IRunner V S X) (stale : List
 
 /-! ### a before/after interrupt is a pause -/
 
-/-- calling `calculateNextTasks` again with no completed task changes nothing and yields no task -/
-def SecondGetQuiet (ops : ValOps V) (base : Runner V) : Prop :=
-  ∀ cm done cm' ts, calcNext ops base cm done = .ok (cm', .tasks ts) →
-    calcNext ops base cm' [] = .ok (cm', .tasks [])
+/-- on channel maps satisfying `Inv` (an invariant of the run): calling `calculateNextTasks` again
+    with no completed task changes nothing and yields no task -/
+def QuietUnder (ops : ValOps V) (base : Runner V) (Inv : Chans V → Prop) : Prop :=
+  ∀ cm done cm' ts, Inv cm → calcNext ops base cm done = .ok (cm', .tasks ts) →
+    Inv cm' ∧ calcNext ops base cm' [] = .ok (cm', .tasks [])
+
+/-- the same without side condition on the channels -/
+def SecondGetQuiet (ops : ValOps V) (base : Runner V) : Prop := QuietUnder ops base (fun _ => True)
 
 theorem finishStep_simple_intr (ops : ValOps V) (r : IRunner V S X) (stale : List (Key × X))
     (cm : Chans V) (ts : List (Key × V)) (dones : List (Done V)) (st : S)
@@ -229,15 +233,15 @@ theorem mkTasks_fresh (ts : List (Key × V)) : ∀ t ∈ mkTasks ([] : List (Key
   obtain ⟨p, _, rfl⟩ := ht
   simp [alookup]
 
-theorem stepI_sim (ops : ValOps V) (r : IRunner V S X) (sched : ISched V S X)
-    (hq : SecondGetQuiet ops r.base) (hnsr : NoSR r) (hsub : SchedSub sched)
-    (ls : LoopSt V S X) (hf : ls.Fresh) (hk : ls.KeysOK r) :
+theorem stepI_sim (ops : ValOps V) (r : IRunner V S X) (sched : ISched V S X) (Inv : Chans V → Prop)
+    (hq : QuietUnder ops r.base Inv) (hnsr : NoSR r) (hsub : SchedSub sched)
+    (ls : LoopSt V S X) (hf : ls.Fresh) (hk : ls.KeysOK r) (hinv : Inv ls.cm) :
     (stepI ops r sched ls).1 = (stepI ops r.plain sched ls).1 ∧
     (match (stepI ops r.plain sched ls).2 with
      | .done v => (stepI ops r sched ls).2 = .done v
      | .fail e => (stepI ops r sched ls).2 = .fail e
      | .intr _ _ => False
-     | .next ls' => ls'.Fresh ∧ ls'.KeysOK r ∧
+     | .next ls' => ls'.Fresh ∧ ls'.KeysOK r ∧ Inv ls'.cm ∧
         ((stepI ops r sched ls).2 = .next ls' ∨ ∃ info, (stepI ops r sched ls).2 = .intr ls'.toCP info)) := by
   refine ⟨by simp only [stepI, stepCore_plain], ?_⟩
   simp only [stepI, stepCore_plain]
@@ -256,11 +260,11 @@ theorem stepI_sim (ops : ValOps V) (r : IRunner V S X) (sched : ISched V S X)
   | next cm ts dones st =>
     rw [hcore] at hc
     obtain ⟨hkeys, done, hcn⟩ := coreOut_next_keys ops r sched _ _ _ cm ts dones st hc
-    have hq' := hq _ _ _ _ hcn
+    obtain ⟨hinv', hq'⟩ := hq _ _ _ _ hinv hcn
     rw [finishStep_plain_next]
     simp only
     have hstale : ls.stale = [] := hf.1
-    refine ⟨⟨hstale, ?_⟩, ?_, ?_⟩
+    refine ⟨⟨hstale, ?_⟩, ?_, hinv', ?_⟩
     · show ∀ t ∈ mkTasks ls.stale ts, t.skipPre = false ∧ t.sub = none
       rw [hstale]; exact mkTasks_fresh ts
     · simp only [LoopSt.KeysOK]; rw [hkeys]; exact hk
@@ -331,11 +335,12 @@ theorem histFrom_same_res (ops : ValOps V) (cfg : Cfg) (r : IRunner V S X) (sche
   | nil => simp [Out.finalOf, h]
   | cons a b => rfl
 
-theorem sim (ops : ValOps V) (cfg : Cfg) (r : IRunner V S X) (sched : ISched V S X)
+theorem sim (ops : ValOps V) (cfg : Cfg) (r : IRunner V S X) (sched : ISched V S X) (Inv : Chans V → Prop)
     (hcfg : cfg.fwdStale = false) (hnd : (akeys (initChans r.base)).Nodup)
-    (hq : SecondGetQuiet ops r.base) (hnsr : NoSR r) (hsub : SchedSub sched) :
+    (hq : QuietUnder ops r.base Inv) (hnsr : NoSR r) (hsub : SchedSub sched) :
     ∀ (n k k₀ calls : Nat) (ls : LoopSt V S X),
       finishesIn ops r sched n ls → n ≤ k → n ≤ k₀ → k ≤ r.base.fuel → n ≤ calls + 1 → ls.Fresh → ls.KeysOK r →
+      Inv ls.cm →
       (Out.finalOf (histFrom ops cfg r sched calls (loopI ops r sched false true k ls))).bind Res.final? =
           (loopI ops r.plain sched false false k₀ ls).res.final? ∧
       (loopI ops r.plain sched false false k₀ ls).res.final? ≠ none ∧
@@ -345,10 +350,10 @@ theorem sim (ops : ValOps V) (cfg : Cfg) (r : IRunner V S X) (sched : ISched V S
   induction n with
   | zero => intro k k₀ calls ls hfin; simp [finishesIn] at hfin
   | succ m ih =>
-    intro k k₀ calls ls hfin hk hk₀ hF hcalls hfresh hkeys
+    intro k k₀ calls ls hfin hk hk₀ hF hcalls hfresh hkeys hinv
     obtain ⟨k', rfl⟩ : ∃ k', k = k' + 1 := ⟨k - 1, by omega⟩
     obtain ⟨k₀', rfl⟩ : ∃ k₀', k₀ = k₀' + 1 := ⟨k₀ - 1, by omega⟩
-    obtain ⟨hevs, hstep⟩ := stepI_sim ops r sched hq hnsr hsub ls hfresh hkeys
+    obtain ⟨hevs, hstep⟩ := stepI_sim ops r sched Inv hq hnsr hsub ls hfresh hkeys hinv
     simp only [finishesIn] at hfin
     cases hp : (stepI ops r.plain sched ls).2 with
     | done v =>
@@ -375,7 +380,7 @@ theorem sim (ops : ValOps V) (cfg : Cfg) (r : IRunner V S X) (sched : ISched V S
     | next ls' =>
       rw [hp] at hstep hfin
       simp only at hstep hfin
-      obtain ⟨hf', hk', hcases⟩ := hstep
+      obtain ⟨hf', hk', hinv', hcases⟩ := hstep
       have h0 : loopI ops r.plain sched false false (k₀' + 1) ls =
           { res := (loopI ops r.plain sched false false k₀' ls').res,
             evs := (stepI ops r.plain sched ls).1 ++ (loopI ops r.plain sched false false k₀' ls').evs } := by
@@ -387,7 +392,7 @@ theorem sim (ops : ValOps V) (cfg : Cfg) (r : IRunner V S X) (sched : ISched V S
             { res := (loopI ops r sched false true k' ls').res,
               evs := (stepI ops r sched ls).1 ++ (loopI ops r sched false true k' ls').evs } := by
           rw [loopI]; simp only [hnext]
-        obtain ⟨ih1, ih2, ih3⟩ := ih k' k₀' calls ls' hfin (by omega) (by omega) (by omega) (by omega) hf' hk'
+        obtain ⟨ih1, ih2, ih3⟩ := ih k' k₀' calls ls' hfin (by omega) (by omega) (by omega) (by omega) hf' hk' hinv'
         obtain ⟨hfe, rest, hr1, hr2⟩ := histFrom_same_res ops cfg r sched calls
           (loopI ops r sched false true (k' + 1) ls) (loopI ops r sched false true k' ls') (by rw [h1])
         refine ⟨?_, ih2, ?_⟩
@@ -406,7 +411,7 @@ theorem sim (ops : ValOps V) (cfg : Cfg) (r : IRunner V S X) (sched : ISched V S
         obtain ⟨c, rfl⟩ : ∃ c, calls = c + 1 := ⟨calls - 1, by omega⟩
         have hres : runI ops cfg r sched false true (.inr ls'.toCP) = loopI ops r sched false true r.base.fuel ls' := by
           simp only [runI, restore_toCP cfg r ls' hcfg hf' hk' hnd]
-        obtain ⟨ih1, ih2, ih3⟩ := ih r.base.fuel k₀' c ls' hfin (by omega) (by omega) (Nat.le_refl _) (by omega) hf' hk'
+        obtain ⟨ih1, ih2, ih3⟩ := ih r.base.fuel k₀' c ls' hfin (by omega) (by omega) (Nat.le_refl _) (by omega) hf' hk' hinv'
         have hh : histFrom ops cfg r sched (c + 1) (loopI ops r sched false true (k' + 1) ls) =
             loopI ops r sched false true (k' + 1) ls ::
               histFrom ops cfg r sched c (loopI ops r sched false true r.base.fuel ls') := by
@@ -428,9 +433,9 @@ def run₀FinishesIn (ops : ValOps V) (r : IRunner V S X) (sched : ISched V S X)
   | .ok (cm, .tasks ts) => finishesIn ops r sched n { cm := cm, tasks := mkTasks [] ts, st := r.initState, stale := [] }
   | _ => True
 
-theorem resume_equiv_top (ops : ValOps V) (cfg : Cfg) (r : IRunner V S X) (sched : ISched V S X)
+theorem resume_equiv_top (ops : ValOps V) (cfg : Cfg) (r : IRunner V S X) (sched : ISched V S X) (Inv : Chans V → Prop)
     (hcfg : cfg.fwdStale = false) (hnd : (akeys (initChans r.base)).Nodup)
-    (hq : SecondGetQuiet ops r.base) (hnsr : NoSR r) (hsub : SchedSub sched)
+    (hq : QuietUnder ops r.base Inv) (hinit : Inv (initChans r.base)) (hnsr : NoSR r) (hsub : SchedSub sched)
     (n calls : Nat) (x : V) (hfin : run₀FinishesIn ops r sched n x) (hn : n ≤ r.base.fuel) (hc : n + 1 ≤ calls) :
     (Out.finalOf (resumeUntilDone ops cfg r sched calls x)).bind Res.final? = (run₀ ops cfg r sched x).res.final? ∧
     (run₀ ops cfg r sched x).res.final? ≠ none ∧
@@ -457,14 +462,15 @@ theorem resume_equiv_top (ops : ValOps V) (cfg : Cfg) (r : IRunner V S X) (sched
         ⟨rfl, mkTasks_fresh ts⟩
       have hk0 : (LoopSt.KeysOK r ({ cm := cm, tasks := mkTasks [] ts, st := r.initState, stale := [] } : LoopSt V S X)) :=
         calcNext_keys ops r.base _ _ _ _ hcn
+      have hi0 : Inv cm := (hq _ _ _ _ hinit hcn).1
       split
       · -- the tasks computed from START hit the interrupt-before list: the first call is only an interrupt
         obtain ⟨c', rfl⟩ : ∃ c', c = c' + 1 := ⟨c - 1, by omega⟩
         have hcp : (simpleCP cm ts r.initState : Checkpoint V S X) =
             ({ cm := cm, tasks := mkTasks [] ts, st := r.initState, stale := [] } : LoopSt V S X).toCP := by
           simp only [LoopSt.toCP, mkTasks_inputs]
-        obtain ⟨s1, s2, s3⟩ := sim ops cfg r sched hcfg hnd hq hnsr hsub n r.base.fuel r.base.fuel c' _ hfin hn hn
-          (Nat.le_refl _) (by omega) hf0 hk0
+        obtain ⟨s1, s2, s3⟩ := sim ops cfg r sched Inv hcfg hnd hq hnsr hsub n r.base.fuel r.base.fuel c' _ hfin hn hn
+          (Nat.le_refl _) (by omega) hf0 hk0 hi0
         have hh : ∀ (info0 : Info S X),
             histFrom ops cfg r sched (c' + 1)
               { res := .interrupted (simpleCP cm ts r.initState) info0, evs := intrEvs false true info0 } =
@@ -481,8 +487,8 @@ theorem resume_equiv_top (ops : ValOps V) (cfg : Cfg) (r : IRunner V S X) (sched
           exact s1
         · simp only [allEvs, List.flatMap_cons, obsEvs_append, obsEvs_intrEvs, List.nil_append] at s3 ⊢
           exact s3
-      · exact sim ops cfg r sched hcfg hnd hq hnsr hsub n r.base.fuel r.base.fuel c _ hfin hn hn
-          (Nat.le_refl _) (by omega) hf0 hk0
+      · exact sim ops cfg r sched Inv hcfg hnd hq hnsr hsub n r.base.fuel r.base.fuel c _ hfin hn hn
+          (Nat.le_refl _) (by omega) hf0 hk0 hi0
 
 /-! ### tasks created after a resume start fresh -/
 
